@@ -217,8 +217,8 @@ PROPS = {
     },
     "C06": {
         "level": "model_checking",
-        "technique": "stateless model checking of concurrent create/open/open_or_create/drop of one service by several nodes (threads) on the real service builder code; bounded-exhaustive single-thread histories and the creator-settings x opener-requirements table (seqx leg, when registered)",
-        "legs": [{"ws": "mc", "bin": "h_service_mt"}],
+        "technique": "stateless model checking of concurrent create/open/open_or_create/drop of one service by several nodes (threads) on the real service builder code; bounded-exhaustive single-thread histories and the full creator-settings x opener-requirements table (seqx leg)",
+        "legs": [{"ws": "mc", "bin": "h_service_mt"}, {"ws": "seq", "bin": "h_lifecycle", "args": ["--prop", "C06"]}],
         "rule": "one case = (messaging pattern: publish-subscribe | event, per-thread call: create(settings) | open | open_or_create(settings) | create-then-drop | open-then-drop); every schedule within the preemption bound is executed on the real code (local service: process-local storages, their pthread mutex and the clock under scheduler control); outcome = what every call returned",
         "assumptions": IXMC_ASSUME + ["local::Service (process-local static/dynamic storages) stands for the ipc variant at thread level; the file/shm based creation protocol between processes is exercised only sequentially (seqx leg) and by the crash enumeration of C04", "two-process interleaving search (DESIGN.md §3.2 use 3) was cut", "scheduling points on locations that only one thread touches after the setup phase, or that nobody writes, are elided (learned set, iterated to a fixed point)"],
         "design_ref": "DESIGN.md §3.1, §4 C06",
@@ -234,5 +234,25 @@ PROPS = {
         "design_ref": "DESIGN.md §3.3, §4 C11",
         "level_text": "Every history of send/loan request, receive request, send/loan response, receive/release response, drop of pending response or active request, creation and drop of clients and servers up to the depth is executed on the real ports and compared after every call with a model of one response stream per (request, server): requests reach each connected server once and in order, responses arrive only through the pending response of their own request, in order, at most once; closing either end is observed by the other; nothing is delivered into a reused slot; limits hold.",
         "level_note": "trusted: seqx engine, the stream model (written from the documentation); bounded as stated",
+    },
+    "C17": {
+        "level": "exploration",
+        "technique": "exhaustive enumeration of all drop-order permutations of complete object graphs (node, service handle, ports, in-flight samples/requests/responses, wait set + guard) per messaging pattern and service variant, with survivor-usability checks after every drop and a leftover scan of an isolated domain",
+        "legs": [{"ws": "seq", "bin": "h_lifecycle", "args": ["--prop", "C17"]}],
+        "rule": "see coverage.legs[0].rule",
+        "assumptions": ["graph sizes: 5 (ipc) / 6 (local) objects in quick, 6-8 in thorough; drop orders the borrow checker forbids (guard vs wait set / listener) are impossible for users and not offered", "one or two nodes sharing the service; variants ipc, local, ipc_threadsafe, local_threadsafe", "documented to persist per domain: the directories <root>/nodes and <root>/services and the global management segment"],
+        "design_ref": "DESIGN.md §3.3, §4 C17",
+        "level_text": "For every messaging pattern and service variant a complete object graph is built in an isolated domain and dropped in EVERY possible order; after each drop every object still alive performs its characteristic operation and must behave as the model says (and the service must exist exactly while something uses it); after the last drop the domain's directory and /dev/shm may contain only the documented persistent objects, and node and service can be re-created under the same names with other types and settings.",
+        "level_note": "trusted: seqx engine; bounded as stated; blocking is detected by a 60 s watchdog",
+    },
+    "C20": {
+        "level": "exploration",
+        "technique": "bounded-exhaustive enumeration of wait-set histories (attach notification/deadline/interval, guard drop, notify, drain, zero-timeout processing, listener re-creation for descriptor reuse) on the epoll and the posix-select reactor against a model of pending events per attachment",
+        "legs": [{"ws": "seq", "bin": "h_waitset"}],
+        "rule": "see coverage.legs[0].rule",
+        "assumptions": ["history depth 6 (local) / 4 (ipc) in quick, deeper in thorough; 1-4 listeners over 1-2 services", "deadlines and intervals use durations that never expire during an exhaustive run; expiry itself is exercised by two dedicated configurations with 1 ms timers and a 5 ms sleep (no virtual clock)", "the attachment capacity is the reactor's (FD_SETSIZE for posix-select, max_user_watches for epoll): 'one attachment too many' runs on the select variant only"],
+        "design_ref": "DESIGN.md §3.3, §4 C20",
+        "level_text": "Every history up to the depth is executed on the real WaitSet: each processing call must invoke the callback exactly for the attachments whose listener has undrained events (level triggered), once each, never for a dropped guard or a foreign object; what is drained must equal what was notified; a notify between or during processing calls is reported by the next one; attaching twice or beyond capacity is refused with the documented error and changes nothing; descriptor reuse after detach works.",
+        "level_note": "trusted: seqx engine, the event model; bounded as stated",
     },
 }
